@@ -53,7 +53,57 @@ def _solve_one(job):
     except Exception as e:
         res = 'unknown'
         model = {'error': str(e)[:300]}
+    if res == 'unknown':
+        # third opinion: the system z3 (4.8.12 CLI) — its model search succeeds on some UF+array queries where 5.x gives up
+        r3, m3 = _z3_cli(smt2, max(10, min(timeout_ms // 1000, 60)))
+        if r3 in ('proved', 'refuted'):
+            res, solver = r3, 'z3-4.8 cli'
+            if m3:
+                model = m3
     return name, res, model, round(time.time() - t0, 3), solver
+
+
+def _z3_cli(smt2, timeout_s):
+    exe = '/usr/bin/z3'
+    if not os.path.exists(exe):
+        return 'unknown', None
+    with tempfile.NamedTemporaryFile('w', suffix='.smt2', delete=False) as f:
+        txt = smt2 if '(check-sat)' in smt2 else smt2 + '\n(check-sat)\n'
+        f.write(txt + '\n(get-model)\n')
+        path = f.name
+    try:
+        p = subprocess.run([exe, '-T:%d' % timeout_s, path], capture_output=True, text=True, timeout=timeout_s + 10)
+        out = p.stdout
+        first = out.strip().splitlines()[0] if out.strip() else ''
+        if first == 'unsat':
+            return 'proved', None
+        if first == 'sat':
+            model = {}
+            for m in re.finditer(r'\(define-fun ([^ ]+) \(\) (Int|Real|Bool)\s+([^\n]+)\)', out):
+                nm, srt, val = m.group(1).strip('|'), m.group(2), m.group(3).strip()
+                try:
+                    if srt == 'Int':
+                        model[nm] = int(val.replace('(- ', '-').replace(')', '').replace(' ', ''))
+                    elif srt == 'Bool':
+                        model[nm] = (val == 'true')
+                    else:
+                        q = re.fullmatch(r'\(/ ([0-9.]+) ([0-9.]+)\)', val)
+                        neg = re.fullmatch(r'\(- (.*)\)', val)
+                        if q:
+                            model[nm] = [int(float(q.group(1))), int(float(q.group(2)))]
+                        elif neg:
+                            q2 = re.fullmatch(r'\(/ ([0-9.]+) ([0-9.]+)\)', neg.group(1))
+                            model[nm] = [-int(float(q2.group(1))), int(float(q2.group(2)))] if q2 else -float(neg.group(1))
+                        else:
+                            model[nm] = float(val)
+                except Exception:
+                    pass
+            return 'refuted', model
+    except Exception:
+        pass
+    finally:
+        os.unlink(path)
+    return 'unknown', None
 
 
 def _cvc5(smt2, timeout_s):
